@@ -216,5 +216,12 @@ def run(ctx, prog):
     ctx.rule('C14-D7', 'no constructor of the template classes accepts an argument it never reads (configuration such as precision must reach the build analysis)')
     ctx.rule('C14-D6', 'the compute closure of every template class (build and matching) has no persistent effect on accumulated state (ownership analysis): profiles can be rebuilt / scores re-read')
     ctx.floor('template classes checked for compute purity', npure, 3)
+    # C14-D8: the matched-trace mean only counts accepted batches - the C16 analysis instantiated for the template classes
+    ctx.rule('C14-D8', 'a matching / building batch that is refused (explicit raise reachable from update) leaves no partial contribution in the scores or the class sums (C16 analysis over the template classes)')
+    from . import c16
+    _allc, _concrete = universe.distinguisher_classes(prog)
+    tcls = [c_ for c_ in _concrete if any(k_.mod.name == 'scared.distinguishers.template' for k_ in prog.mro(c_))]
+    ctx.floor('template classes checked for refusal without residue', len(tcls), 2)
+    ctx.floor('raise sites reachable from the template updates', c16.rejection_clause(ctx, prog, tcls, 'C14-D8'), 4)
     ctx.floor('template row selections', n3, 2)
     ctx.floor('axis obligations (template)', n4, 20)
